@@ -8,6 +8,7 @@ def gen_ops(rng, proto, nops, with_timeout):
     """returns (ops tokens, slave or None)"""
     slave = rng.choice([None, rng.randrange(256)])
     cur = slave if slave is not None else (255 if proto == "tcp" else 0)
+    cur0 = cur
     ops, ncall = [], 0
     closed = False
     for _ in range(nops):
@@ -16,8 +17,9 @@ def gen_ops(rng, proto, nops, with_timeout):
             with_timeout = rng.random() < 0.7
             ops.append("timeout %s" % (rng.choice(["800", "1000", "1200"]) if with_timeout else "-"))
             continue
-        if rng.random() < 0.15:
-            cur = rng.randrange(256)
+        if rng.random() < 0.2:
+            # another device -- or BACK to the one selected when connecting (explicitly, or the default 255 / 0)
+            cur = rng.choice([rng.randrange(256), rng.randrange(256), cur0, cur0])
             ops.append("slave %d" % cur)
             continue
         kind = rng.choice(["RC", "RDI", "RHR", "RIR", "RWMR", "WSC", "WSR", "WMC", "WMR", "MWR", "RSI", "CU"])
